@@ -562,7 +562,7 @@ impl DrawState {
             // Check here for bar lines that exceed the terminal height
             if matches!(line, LineType::Bar(_)) {
                 // Stop here if printing this bar would exceed the terminal height
-                if real_height + line_height > term.height().into() {
+                if real_height.saturating_add(line_height) > term.height().into() {
                     break;
                 }
 
